@@ -15,7 +15,10 @@ RULE = ('k in 1..4 operands with disjoint ids on the concatenation axis (plus a 
         'identical / permuted / partially missing / disjoint / random, 1..4 x 1..5 blocks, values counts/signed/dyadic/big, '
         'some operands emptied on one axis by filter([]) (0 x n, m x 0), metadata on neither/either/both axes per operand (entries may be empty, the same other-axis id may carry '
         'different metadata in different operands), every operand built from a layout recipe; calls: '
-        't.concat(list), t.concat(table), t.concat(list) with the default axis, biom.concat(list); '
+        't.concat(list), t.concat(table), t.concat(list) with the default axis, biom.concat(list), the axis as keyword and '
+        'positionally for both entry points; a share of all cases (refused ones included) runs inside errstate / seterr '
+        'with the duplicate-id kinds ignored or every kind warned/ignored (profile restored afterwards); a quarter of '
+        'the cases use falsy-looking ids (0, blank, False, None); '
         'for list operands the call is repeated with the same list object (same receiver, and a second receiver '
         'carrying the block under fresh ids) and the caller\'s list must be left unchanged; '
         'non-trivial = at least two operands or a refused case; distinct by case hash')
@@ -27,7 +30,13 @@ ASSUMPTIONS = ['operands are coherent tables (C05) with 1..N x 1..M shape',
                'the order of the other axis in the result is not promised by the property text (the model proves it is sorted)']
 
 AXES = ['observation', 'sample']
-CALLS = ['method_list', 'method_single', 'method_default_axis', 'module']
+CALLS = ['method_list', 'method_single', 'method_default_axis', 'module', 'method_positional', 'module_positional']
+# error profiles under which the call is made (None = the default profile); refusal of overlapping ids must not
+# depend on them.  'raise'/'print' for every kind are left out: emptied operands would trip the 'empty' kind.
+PROFILES = [None, None, None, ['errstate', {'sampdup': 'ignore'}], ['errstate', {'obsdup': 'ignore'}],
+            ['errstate', {'sampdup': 'ignore', 'obsdup': 'ignore'}], ['errstate', {'all': 'warn'}],
+            ['errstate', {'all': 'ignore'}], ['seterr', {'all': 'warn'}], ['seterr', {'obsdup': 'warn', 'sampdup': 'warn'}]]
+FALSY_IDS = ['0', ' ', 'False', 'None', '0.0', '[]']        # valid non-empty ids that look falsy ('' is outside C01)
 PATTERNS = ['identical', 'permuted', 'missing', 'disjoint', 'random']
 _INFO = {}
 
@@ -110,8 +119,18 @@ def gen_case(rng, k=None, pattern=None, axis=None, call=None, clash=None):
         call = 'method_list'
     if call == 'method_default_axis' and axis != 'sample':
         call = 'module'
-    case = {'specs': specs, 'axis': axis, 'call': call, 'pattern': pattern}
-    if call in ('method_list', 'method_default_axis'):
+    if rng.random() < 0.25:         # falsy-looking ids on either axis (the same text may be shared on the other axis)
+        ren = {}
+        for spec in specs:
+            for key in ('oids', 'sids'):
+                for n, i in enumerate(spec[key]):
+                    if i not in ren and rng.random() < 0.3 and len(ren) < len(FALSY_IDS):
+                        ren[i] = FALSY_IDS[len(ren)]
+        for spec in specs:
+            for key in ('oids', 'sids'):
+                spec[key] = [ren.get(i, i) for i in spec[key]]
+    case = {'specs': specs, 'axis': axis, 'call': call, 'pattern': pattern, 'profile': copy.deepcopy(rng.choice(PROFILES))}
+    if call in ('method_list', 'method_default_axis', 'method_positional'):
         case['other'] = other_receiver(specs[0], axis, rng)
     return case
 
@@ -176,22 +195,61 @@ def run_impl(case):
     except Exception as e:
         return ['crash-build', type(e).__name__, str(e)[:200]]
     _INFO[id(case)] = [T.layout_info(t) for t in ts]
+    try:
+        return _under_profile(case.get('profile'), lambda: _calls(case, ts, other))
+    finally:
+        _restore_default_profile()
+
+
+def _restore_default_profile():
+    import biom.err as E
+    from .c20 import DEFAULT
+    prof = getattr(E, '__errprof')
+    prof._state.clear()
+    prof._state.update(DEFAULT)
+
+
+def _under_profile(profile, f):
+    import biom.err as E
+    if not profile:
+        return f()
+    kind, kw = profile
+    if kind == 'errstate':
+        with E.errstate(**kw):
+            return f()
+    old = E.seterr(**kw)
+    try:
+        return f()
+    finally:
+        E.seterr(**old)
+
+
+def _calls(case, ts, other):
     axis, call = case['axis'], case['call']
     if call == 'method_single':
         return [_status(lambda: ts[0].concat(ts[1], axis=axis)), {'repeat': None, 'other': None, 'list_unchanged': True}]
-    if call == 'module':
+    if call in ('module', 'module_positional'):
         lst = list(ts)
         before = [id(x) for x in lst]
-        main = _status(lambda: biom.concat(lst, axis=axis))
-        again = _status(lambda: biom.concat(lst, axis=axis))
+        if call == 'module':
+            main = _status(lambda: biom.concat(lst, axis=axis))
+            again = _status(lambda: biom.concat(lst, axis=axis))
+        else:
+            main = _status(lambda: biom.concat(lst, axis))
+            again = _status(lambda: biom.concat(lst, axis))
         return [main, {'repeat': again, 'other': None, 'list_unchanged': [id(x) for x in lst] == before}]
     lst = ts[1:]
     before = [id(x) for x in lst]
-    kw = {} if call == 'method_default_axis' else {'axis': axis}
-    main = _status(lambda: ts[0].concat(lst, **kw))
+    if call == 'method_positional':
+        do = lambda t: t.concat(lst, axis)
+    elif call == 'method_default_axis':
+        do = lambda t: t.concat(lst)
+    else:
+        do = lambda t: t.concat(lst, axis=axis)
+    main = _status(lambda: do(ts[0]))
     unchanged = [id(x) for x in lst] == before
-    again = _status(lambda: ts[0].concat(lst, **kw))
-    oth = _status(lambda: other.concat(lst, **kw)) if other is not None else None
+    again = _status(lambda: do(ts[0]))
+    oth = _status(lambda: do(other)) if other is not None else None
     return [main, {'repeat': again, 'other': oth, 'list_unchanged': unchanged and [id(x) for x in lst] == before}]
 
 
@@ -299,6 +357,10 @@ def nontrivial(case):
 
 def classify(case):
     tags = ['k:%d' % len(case['specs']), 'axis:' + case['axis'], 'call:' + case['call'], 'pattern:' + case.get('pattern', '?')]
+    pr = case.get('profile')
+    tags.append('profile:' + ('default' if not pr else pr[0] + ':' + ','.join('%s=%s' % kv for kv in sorted(pr[1].items()))))
+    if any(i in FALSY_IDS for s in case['specs'] for i in s['oids'] + s['sids']):
+        tags.append('ids:falsy-looking')
     ax = 'oids' if case['axis'] == 'observation' else 'sids'
     ids = [i for s in case['specs'] for i in s[ax]]
     tags.append('stream:refused' if len(set(ids)) != len(ids) else 'stream:disjoint')
